@@ -15,7 +15,9 @@ type sC09 struct {
 
 type nKeyStr string
 
-const nShapes = 44
+const nShapes = 52
+
+type nDigestC09 [2]byte
 
 // shapeC09 builds the value the selector `a` resolves to.
 func shapeC09(k int) (interface{}, string) {
@@ -111,9 +113,26 @@ func shapeC09(k int) (interface{}, string) {
 		return []nUint8{nUint8(vUint8())}, "[]namedUint8"
 	case 42:
 		return map[string][]int{"x": nil}, "map[string][]int"
-	default:
+	case 43:
 		x := vString(1)
 		return &x, "*string"
+	case 44:
+		return [2]byte{vByte(), 'b'}, "[2]byte"
+	case 45:
+		return nDigestC09{vByte(), 'b'}, "named [2]byte"
+	case 46:
+		return &[2]byte{vByte(), 'b'}, "*[2]byte"
+	case 47:
+		return [1]string{vString(1)}, "[1]string"
+	case 48:
+		return map[string]*int{"x": nil}, "map[string]*int{nil}"
+	case 49:
+		return []map[string]int{{"a": 1}, nil}, "[]map[string]int"
+	case 50:
+		var i interface{} = vInt()
+		return &i, "*interface{}"
+	default:
+		return [2]interface{}{nil, vString(1)}, "[2]interface{}"
 	}
 }
 
